@@ -214,23 +214,20 @@ macro_rules! tri {
 
 pub(crate) use tri;
 
-struct DepthGuard<'a, R> {
-    de: &'a mut Deserializer<R>,
-}
-
-impl<'a, 'de, R: Reader<'de>> DepthGuard<'a, R> {
-    fn guard(de: &'a mut Deserializer<R>) -> Result<Self> {
-        de.remaining_depth -= 1;
-        if de.remaining_depth == 0 {
-            return Err(de.parser.error(RecursionLimitExceeded));
+impl<'de, R: Reader<'de>> Deserializer<R> {
+    // The depth is held while the visitor walks the container, and released by `leave_depth`.
+    #[inline]
+    fn enter_depth(&mut self) -> Result<()> {
+        if self.remaining_depth <= 1 {
+            return Err(self.parser.error(RecursionLimitExceeded));
         }
-        Ok(Self { de })
+        self.remaining_depth -= 1;
+        Ok(())
     }
-}
 
-impl<'a, R> Drop for DepthGuard<'a, R> {
-    fn drop(&mut self) {
-        self.de.remaining_depth += 1;
+    #[inline]
+    fn leave_depth(&mut self) {
+        self.remaining_depth += 1;
     }
 }
 
@@ -467,8 +464,10 @@ impl<'de, 'a, R: Reader<'de>> de::Deserializer<'de> for &'a mut Deserializer<R> 
             },
             b'[' => {
                 let ret = {
-                    let _ = DepthGuard::guard(self);
-                    visitor.visit_seq(SeqAccess::new(self))
+                    tri!(self.enter_depth());
+                    let ret = visitor.visit_seq(SeqAccess::new(self));
+                    self.leave_depth();
+                    ret
                 };
                 match (ret, self.end_seq()) {
                     (Ok(ret), Ok(())) => Ok(ret),
@@ -477,8 +476,10 @@ impl<'de, 'a, R: Reader<'de>> de::Deserializer<'de> for &'a mut Deserializer<R> 
             }
             b'{' => {
                 let ret = {
-                    let _ = DepthGuard::guard(self);
-                    visitor.visit_map(MapAccess::new(self))
+                    tri!(self.enter_depth());
+                    let ret = visitor.visit_map(MapAccess::new(self));
+                    self.leave_depth();
+                    ret
                 };
                 match (ret, self.end_map()) {
                     (Ok(ret), Ok(())) => Ok(ret),
@@ -751,8 +752,10 @@ impl<'de, 'a, R: Reader<'de>> de::Deserializer<'de> for &'a mut Deserializer<R> 
         let value = match peek {
             b'[' => {
                 let ret = {
-                    let _ = DepthGuard::guard(self);
-                    visitor.visit_seq(SeqAccess::new(self))
+                    tri!(self.enter_depth());
+                    let ret = visitor.visit_seq(SeqAccess::new(self));
+                    self.leave_depth();
+                    ret
                 };
                 match (ret, self.end_seq()) {
                     (Ok(ret), Ok(())) => Ok(ret),
@@ -797,8 +800,10 @@ impl<'de, 'a, R: Reader<'de>> de::Deserializer<'de> for &'a mut Deserializer<R> 
         let value = match peek {
             b'{' => {
                 let ret = {
-                    let _ = DepthGuard::guard(self);
-                    visitor.visit_map(MapAccess::new(self))
+                    tri!(self.enter_depth());
+                    let ret = visitor.visit_map(MapAccess::new(self));
+                    self.leave_depth();
+                    ret
                 };
                 match (ret, self.end_map()) {
                     (Ok(ret), Ok(())) => Ok(ret),
@@ -829,8 +834,10 @@ impl<'de, 'a, R: Reader<'de>> de::Deserializer<'de> for &'a mut Deserializer<R> 
         let value = match peek {
             b'[' => {
                 let ret = {
-                    let _ = DepthGuard::guard(self);
-                    visitor.visit_seq(SeqAccess::new(self))
+                    tri!(self.enter_depth());
+                    let ret = visitor.visit_seq(SeqAccess::new(self));
+                    self.leave_depth();
+                    ret
                 };
                 match (ret, self.end_seq()) {
                     (Ok(ret), Ok(())) => Ok(ret),
@@ -839,8 +846,10 @@ impl<'de, 'a, R: Reader<'de>> de::Deserializer<'de> for &'a mut Deserializer<R> 
             }
             b'{' => {
                 let ret = {
-                    let _ = DepthGuard::guard(self);
-                    visitor.visit_map(MapAccess::new(self))
+                    tri!(self.enter_depth());
+                    let ret = visitor.visit_map(MapAccess::new(self));
+                    self.leave_depth();
+                    ret
                 };
                 match (ret, self.end_map()) {
                     (Ok(ret), Ok(())) => Ok(ret),
@@ -871,10 +880,13 @@ impl<'de, 'a, R: Reader<'de>> de::Deserializer<'de> for &'a mut Deserializer<R> 
         match self.parser.skip_space_peek() {
             Some(b'{') => {
                 self.parser.read.eat(1);
-                let value = {
-                    let _ = DepthGuard::guard(self);
-                    tri!(visitor.visit_enum(VariantAccess::new(self)))
+                let ret = {
+                    tri!(self.enter_depth());
+                    let ret = visitor.visit_enum(VariantAccess::new(self));
+                    self.leave_depth();
+                    ret
                 };
+                let value = tri!(ret);
 
                 match self.parser.skip_space() {
                     Some(b'}') => Ok(value),
